@@ -586,7 +586,7 @@ func c06fieldPath(c *an.Ctx) {
 		walker := false
 		an.InspectOwn(f, func(m ast.Node) bool {
 			if rs, ok := m.(*ast.RangeStmt); ok {
-				if tv, has := info.Types[rs.X]; has && tv.Type != nil && tv.Type.String() == "[]int" {
+				if tv, has := info.Types[rs.X]; has && tv.Type != nil && tv.Type.Underlying().String() == "[]int" { // also a named []int
 					ast.Inspect(rs.Body, func(k ast.Node) bool {
 						if call, ok := k.(*ast.CallExpr); ok {
 							switch an.CalleeName(info, call) {
